@@ -252,7 +252,7 @@ func refResponses(stream []byte) ([]pmsg, error) {
 }
 
 // ---- nbio ----
-func nbioRun(stream []byte, client bool, bytewise bool, maxBody int) (msgs []pmsg, perr error, maxSeen int) {
+func nbioRun(stream []byte, client bool, bytewise bool, maxBody int, cuts ...int) (msgs []pmsg, perr error, maxSeen int) {
 	defer func() {
 		if e := recover(); e != nil {
 			perr = fmt.Errorf("panic: %v", e)
@@ -295,6 +295,19 @@ func nbioRun(stream []byte, client bool, bytewise bool, maxBody int) (msgs []pms
 		return msgs, nil, maxSeen
 	}
 	pos = -1
+	if len(cuts) > 0 {
+		prev := 0
+		for _, k := range append(append([]int{}, cuts...), len(stream)) {
+			if k <= prev || k > len(stream) {
+				continue
+			}
+			if err := p.Parse(append([]byte{}, stream[prev:k]...)); err != nil {
+				return msgs, err, maxSeen
+			}
+			prev = k
+		}
+		return msgs, nil, maxSeen
+	}
 	err := p.Parse(stream)
 	return msgs, err, maxSeen
 }
@@ -336,6 +349,7 @@ func main() {
 	seed := flag.Int64("seed", 1, "")
 	n := flag.Int("n", 3000, "streams")
 	model := flag.String("model", "", "")
+	pmodel := flag.String("pmodel", "", "extracted parser + processor model (coq/httpproc)")
 	out := flag.String("out", "-", "")
 	flag.Parse()
 	rep := hx.NewReport("httpref", *seed)
@@ -344,6 +358,11 @@ func main() {
 	if *model != "" {
 		m = hx.StartModel(*model)
 		defer m.Close()
+	}
+	var pm *hx.Model
+	if *pmodel != "" {
+		pm = hx.StartModel(*pmodel)
+		defer pm.Close()
 	}
 	r := rand.New(rand.NewSource(*seed))
 	for it := 0; it < *n && !rep.TooMany(); it++ {
@@ -430,6 +449,21 @@ func main() {
 				rep.Add(hx.Finding{Kind: "mismatch", Property: "C07", Signature: "httpparser-model", What: "implementation and model disagree on a well-formed stream\n impl =" + trunc(got, 600) + "\n model=" + trunc(want, 600), Replay: replay})
 			}
 		}
+		if pm != nil {
+			ci := 0
+			if client {
+				ci = 1
+			}
+			want := pm.Ask("%d 0 %s", ci, hex.EncodeToString(stream))
+			got, ok := procRun(stream, client)
+			if !ok {
+				rep.Stat("processor-model-assumption-not-met(url host)")
+			} else if got != want {
+				rep.Add(hx.Finding{Kind: "mismatch", Property: "C07", Signature: "httpprocessor-model", What: "the real processor and the processor model deliver different requests/responses for a well-formed stream\n impl =" + trunc(got, 900) + "\n model=" + trunc(want, 900), Replay: replay})
+			} else {
+				rep.Stat("processor-model-agrees")
+			}
+		}
 		if it < 3 {
 			rep.Sample(map[string]interface{}{"client": client, "stream": string(stream), "messages": len(ref), "reference_first": ref[0].String()})
 		}
@@ -467,18 +501,34 @@ func bodyLimit(rep *hx.Report, r *rand.Rand) {
 		} else {
 			sb.WriteString(fmt.Sprintf("POST /u HTTP/1.1\r\nHost: h\r\nContent-Length: %d\r\n\r\n%s", total, body))
 		}
+		// a pipelined successor right behind the body: bytes that follow a body are not part of it
+		follow := r.Intn(2) == 0
+		nmsg := 1
+		if follow && total <= limit {
+			sb.WriteString(fmt.Sprintf("POST /v HTTP/1.1\r\nHost: h\r\nContent-Length: %d\r\n\r\n%s", limit/2, bytes.Repeat([]byte("y"), limit/2)))
+			nmsg = 2
+		}
 		stream := []byte(sb.String())
-		for _, bytewise := range []bool{false, true} {
-			msgs, perr, maxSeen := nbioRun(stream, false, bytewise, limit)
-			rep.Case(fmt.Sprintf("B/%d/%d/%v/%v", limit, total, chunked, bytewise), true)
+		for mode := 0; mode < 4; mode++ {
+			bytewise := mode == 1
+			var cuts []int
+			if mode >= 2 { // one or two reads that end inside the (first) body
+				for k := 0; k < mode-1; k++ {
+					cuts = append(cuts, 40+r.Intn(len(stream)-40))
+				}
+				sort.Ints(cuts)
+			}
+			msgs, perr, maxSeen := nbioRun(stream, false, bytewise, limit, cuts...)
+			rep.Case(fmt.Sprintf("B/%d/%d/%v/%d/%v", limit, total, chunked, mode, follow), true)
 			rep.Stat("bodylimit")
-			replay := map[string]interface{}{"harness": "httpref", "part": "bodylimit", "MaxHTTPBodySize": limit, "body": total, "chunked": chunked, "bytewise": bytewise, "stream": trunc(string(stream), 300)}
+			replay := map[string]interface{}{"harness": "httpref", "part": "bodylimit", "MaxHTTPBodySize": limit, "body": total, "chunked": chunked, "bytewise": bytewise, "cuts": cuts, "pipelined_successor": nmsg == 2, "stream": trunc(string(stream), 300)}
 			if maxSeen > limit {
 				rep.Add(hx.Finding{Kind: "oracle", Property: "C08", Signature: "body-exceeds-max", What: fmt.Sprintf("handler received a %d byte body, MaxHTTPBodySize is %d", maxSeen, limit), Replay: replay})
 			} else if total > limit && (perr == nil || len(msgs) > 0) {
 				rep.Add(hx.Finding{Kind: "oracle", Property: "C08", Signature: "oversized-body-accepted", What: fmt.Sprintf("a %d byte body under MaxHTTPBodySize %d was not rejected (err=%v, delivered=%d)", total, limit, perr, len(msgs)), Replay: replay})
-			} else if total <= limit && (perr != nil || len(msgs) != 1) {
-				rep.Add(hx.Finding{Kind: "oracle", Property: "C08", Signature: "fitting-body-rejected", What: fmt.Sprintf("a %d byte body under MaxHTTPBodySize %d was rejected: %v", total, limit, perr), Replay: replay})
+			} else if total <= limit && (perr != nil || len(msgs) != nmsg) {
+				// the same bytes are accepted or rejected whatever the segmentation: this is also the C06 clause
+				rep.Add(hx.Finding{Kind: "oracle", Property: "C06", Signature: "fitting-body-rejected", What: fmt.Sprintf("a %d byte body under MaxHTTPBodySize %d (followed by %d further message(s)) fed with cuts %v bytewise=%v: err=%v, %d of %d messages delivered", total, limit, nmsg-1, cuts, bytewise, perr, len(msgs), nmsg), Replay: replay})
 			}
 		}
 	}
